@@ -194,5 +194,5 @@ TextOK ==
     LET v == CollapseRep(Raw, TRUE) IN
     /\ \A i \in 1..Len(v) : v[i] # 60
     /\ WsNorm(DecodeRefs(v, FALSE)) = WsNorm(DecodeRefs(Raw, FALSE))
-Emit == PrintT(<<"VAL", ToJson(Raw)>>)
+Emit == PrintT("VAL " \o ToJson(Raw))
 =============================================================================
